@@ -23,12 +23,24 @@ CLAIMED = {
          "Bounded history length; HashSet order modelled by two permutations."),
  "C11": ("metadata round trip with symbolic u128 time, symbolic size, opaque JSON / raw metadata, hostile keys, defaults tied to the clock reads of the commit, rewrites of a key",
          "JSON values opaque or concrete samples."),
+ "C12": ("operation programs (writes with option combinations, reads, streamed reads, extraction, removals, listing, damaged content, index garbage, rejected commits) executed with the SAME symbolic inputs in the sync, async-std and tokio builds and compared step by step, plus mixed-API programs",
+         "Programs of <= ~8 operations; default timestamps compared as clock readings; counterexamples confirmed by running both native builds."),
  "C13": ("exactly one filesystem action of each call fails (every action in turn, errno opaque until inspected, or short write + failure); truthful outcome, no damage, retry succeeds",
          "Single fault per call; fault replay through an LD_PRELOAD shim."),
  "C14": ("writers abandoned after creation / chunks / cancelled async write with the blocking job pending, and rejected commits: lookups unchanged, tmp/ empty, no index append",
          "spawn_blocking timing explored in three modes."),
+ "C15": ("every filesystem action requested by every public operation under hostile keys: paths confined to the cache directory (or the explicit destination), components only fixed names / algorithm names / digest slices / temp names, read-only calls perform no mutation, confusable keys independent, over-eager cleanup above the cache root",
+         "Observed at the library-call boundary of the model (what the modelled crates do below is outside the claim)."),
+ "C16": ("every ordered pair of store entry points for the same bytes: same address, one content file, every instant of the second store inspected on the action trace (in-place modification replayed by killing the process right after the action); algorithm pairs coexist",
+         "Sequential second writers (concurrent ones are C07)."),
+ "C17": ("library output compared byte for byte (paths and file bytes, symbolic time/size) with an independent ~100-line reference writer, and reference-written caches read back through the library",
+         "Reference = mirsym/refmodel.py, written from the format description."),
  "C18": ("extraction (copy/reflink/hard_link, checked/unchecked, by key/address) on pristine, damaged and missing content, fresh and existing destinations, filesystems with and without reflink",
          "Bounded: checked extraction <= 3 verification reads (quick 2)."),
+ "C19": ("link_to by key/address with absolute and relative targets (working directory elsewhere), partial reads through the linker, target rewritten/removed/replaced afterwards, address already present as regular content, declared size/integrity",
+         "Targets up to 3 verification reads (8 B probe + 2 x 16 KiB); link_to feature enabled in all dumps."),
+ "C20": ("totality: every public operation on hostile on-disk states (checksum-valid records with hostile integrity strings / wrong types / missing fields, empty/NUL/newline buckets, files where directories are expected and vice versa, looping and dangling symlinks) and writers with arbitrary declared sizes; panics, aborts and step-budget hangs are violations",
+         "One known finding (F9) is reported as KNOWN-FINDING."),
 }
 REASON_PENDING = "check not built yet (engine under construction); will be claimed once its vacuity and replay guards pass"
 
